@@ -20,7 +20,7 @@ SCEN = {  # the harness scenarios as histories of the Stop model
     "peers-closed-first": "p_admit 0 ++ p_admit 1 ++ [LSockDie 0; LRp 0; LWpCwp 0; LSockDie 1; LNewStop]",
 }
 CFG_ORDER = ["stop_again", "api_nil", "hs_quit", "hs_nil", "hs_close", "srp_cconn", "swp_err_sock", "swp_cc_sock", "start_sock", "cb_release", "stop_waits"]
-STRUCT = ["hs_closes_conn", "after_pump_releases", "start_closes_transport"]
+STRUCT = ["hs_closes_conn", "after_pump_releases", "start_closes_transport", "srp_closes_cwp", "swp_cwp_arm", "shr_done_arm", "swr_arms"]
 ASSUMPTIONS = ["'bounded' is observed as 3 s (6 s before a hang is declared)"]
 FILES = ["root/fake_test.go", "root/c16_test.go", "root/c07_test.go", "root/peers_test.go", "root/c18_test.go", "root/c06_test.go", "root/session_test.go", "root/c01_test.go", "root/c14_test.go", "root/c11_test.go", "root/c10_test.go"]
 
